@@ -220,7 +220,7 @@ func cmdCodecInl(a Args) {
 		T := sizes[hr.Intn(len(sizes))]
 		atree.VerifSetThreshold(T)
 		flavour := []int{1, 3, 4, 5}[h%4] // codec's 1 nested, 3 compact, 4 mixed; 5 = nested with shared type infos
-		opts := WorldOpts{Addr: 1 + uint64(hr.Intn(3)), Maps: true, Wrap: hr.Chance(60), LargeVals: hr.Chance(60), PopChild: true, KeySpace: 60}
+		opts := WorldOpts{Addr: 1 + uint64(hr.Intn(3)), Maps: true, Wrap: hr.Chance(60), LargeVals: hr.Chance(60), PopChild: true, KeySpace: 60, SelfSet: hr.Chance(40)}
 		compact := false
 		collide := false
 		shared := false
